@@ -52,6 +52,8 @@ def run_in_kernel(ch, knobs, main_fn):
 
 
 def result(k, violations, key=None, **extra):
+    if getattr(k, "harness_fault", None):
+        raise kernel.HarnessError(k.harness_fault)
     vs = list(violations)
     probes = dict(k.probes)
     if k.hang:
